@@ -1,9 +1,12 @@
 /-
-  Props/C07.lean — cutoff zeroes exactly the out-of-range elements. PROPERTY THEOREMS ONLY.
+  Props/C07.lean — cutoff zeroes exactly the out-of-range elements and nothing else. PROPERTY THEOREMS ONLY.
+  `x : CutoffIn` carries the distance matrix and the radius; `near x i j := x.d i j < x.cutoff`.
+  The distances themselves (`_calc_distances`, Niggli reduction) are NOT modelled: they are an input here.
 -/
 import SymfcModel.Model.Cutoff
 import SymfcModel.Gen.Cutoff
 import SymfcModel.Gen.Api
+import SymfcModel.Lemmas.Cutoff
 namespace Symfc.C07
 open Symfc
 
@@ -19,5 +22,51 @@ theorem cutoff_comparisons_are_the_specified_ones :
 
 /-- C07.e: each order's basis set is built with that order's own radius -/
 theorem each_order_gets_its_own_cutoff : Gen.computeCutoffKeys = [(2, 2), (3, 3), (4, 4)] := by decide
+
+/-- C07.a: for orders 2, 3, 4 the index combinations handed to the permutation stage are EXACTLY the strictly
+    increasing tuples of (atom, Cartesian) entries whose atoms are pairwise within the cutoff — nothing with a far
+    pair gets in, nothing admissible is left out, nothing is listed twice. -/
+theorem combinations_are_exactly_the_pairwise_near_tuples (x : CutoffIn)
+    (hsym : ∀ i j, x.d i j = x.d j i) (hself : ∀ i, i < x.N → x.d i i < x.cutoff)
+    (k : Nat) (hk : k = 2 ∨ k = 3 ∨ k = 4) (c : List Nat) :
+    (c ∈ x.combinations Gen.cutoffOps k ↔
+      c.length = k ∧ c.Pairwise (· < ·) ∧ (∀ e ∈ c, e < 3 * x.N) ∧ pairwiseNear x (c.map (· / 3))) ∧
+    (x.combinations Gen.cutoffOps k).Nodup :=
+  ⟨mem_combinations hsym hself hk, combinations_nodup x hk⟩
+
+/-- C07.a/b: the mask used by the coset projector and by the sum rule (`nonzero_atomic_indices_fc{n}`) flags EXACTLY
+    the atom tuples that are pairwise within the cutoff … -/
+theorem nonzero_mask_is_pairwise_near (x : CutoffIn)
+    (hsym : ∀ i j, x.d i j = x.d j i) (hself : ∀ i, i < x.N → x.d i i < x.cutoff)
+    (n : Nat) (hn : n = 2 ∨ n = 3 ∨ n = 4) (atoms : List Nat) (hlen : atoms.length = n) (hlt : ∀ a ∈ atoms, a < x.N) :
+    (x.nonzeroAtomic Gen.cutoffOps n).getD (flat x.N atoms) false = true ↔ pairwiseNear x atoms :=
+  nonzeroAtomic_iff hsym hself hn hlen hlt
+
+/-- … so the three places where the cutoff is applied agree: an increasing tuple is linked by the permutation stage
+    iff its atom tuple is kept by the coset-projector mask and summed in its sum-rule row (C03.b). -/
+theorem the_three_masks_agree (x : CutoffIn) (hsym : ∀ i j, x.d i j = x.d j i)
+    (k : Nat) (hk : k = 2 ∨ k = 3 ∨ k = 4) (c : List Nat)
+    (hlen : c.length = k) (hinc : c.Pairwise (· < ·)) (hlt : ∀ e ∈ c, e < 3 * x.N) :
+    c ∈ x.combinations Gen.cutoffOps k ↔
+      (x.nonzeroAtomic Gen.cutoffOps k).getD (flat x.N (c.map (· / 3))) false = true :=
+  mem_combinations_iff_nonzeroAtomic hsym hk hlen hinc hlt
+
+/-- C07.d: enlarging the cutoff never removes an admitted combination … -/
+theorem enlarging_the_cutoff_never_shrinks (x x' : CutoffIn) (hN : x'.N = x.N)
+    (h : ∀ i j, near x i j → near x' i j) (k : Nat) (hk : k = 2 ∨ k = 3 ∨ k = 4) (c : List Nat)
+    (hc : c ∈ x.combinations Gen.cutoffOps k) : c ∈ x'.combinations Gen.cutoffOps k :=
+  combinations_mono hN h hk hc
+
+/-- … and a cutoff larger than every interatomic distance admits exactly the combinations of the no-cutoff path
+    (`get_entire_combinations`), as a rearrangement of the same list. -/
+theorem cutoff_beyond_all_distances_is_no_cutoff (x : CutoffIn)
+    (hall : ∀ i j, i < x.N → j < x.N → near x i j) (k : Nat) (hk : k = 2 ∨ k = 3 ∨ k = 4) :
+    (x.combinations Gen.cutoffOps k).Perm (entireCombinations (3 * x.N) k) :=
+  combinations_perm_entire hall hk
+
+/-- the no-cutoff path lists exactly the strictly increasing k-tuples below 3N -/
+theorem no_cutoff_combinations (n r : Nat) (c : List Nat) :
+    c ∈ entireCombinations n r ↔ c.length = r ∧ c.Pairwise (· < ·) ∧ ∀ e ∈ c, e < n :=
+  mem_entireCombinations
 
 end Symfc.C07
